@@ -103,6 +103,9 @@ pub struct Driver {
     pub probes: Probes,
     pub probe_seed: u64,
     pub light: bool,
+    /// C04 mode: a state/outcome divergence from the model does not stop the run; the model is
+    /// re-based on what the log shows so that the model-independent position monitor keeps watching
+    pub lenient: bool,
     /// keep the observation after every step (metamorphic engines)
     pub keep_obs: bool,
     pub obs_log: Vec<Option<Obs>>,
@@ -138,6 +141,7 @@ impl Driver {
             probes: Probes::default(),
             probe_seed: case.probe_seed,
             light: false,
+            lenient: false,
             keep_obs: false,
             obs_log: Vec::new(),
             hw: BTreeMap::new(),
@@ -167,6 +171,7 @@ impl Driver {
             probes: Probes::default(),
             probe_seed,
             light: false,
+            lenient: false,
             keep_obs: false,
             obs_log: Vec::new(),
             hw: BTreeMap::new(),
@@ -199,6 +204,7 @@ impl Driver {
             probes: Probes::default(),
             probe_seed,
             light: false,
+            lenient: false,
             keep_obs: false,
             obs_log: Vec::new(),
             hw: BTreeMap::new(),
@@ -296,9 +302,32 @@ impl Driver {
         }
         self.steps.push(Step { op: op.clone(), outcome: outcome.clone(), expected: expected.clone(), eff_start, eff_end, open_start, policy });
         if self.stopped {
+            // oracles that read only the effect trace do not depend on the model: evaluate them anyway
+            let failures_before = self.failures.len();
+            self.c13_no_trace(idx, eff_start, eff_end, open_start, &op, &outcome, &expected);
+            self.c17_names(idx, eff_start, eff_end);
+            if self.lenient && !matches!(outcome, Outcome::Err(ErrKind::Panic) | Outcome::Err(ErrKind::Hang) | Outcome::Err(ErrKind::Io) | Outcome::Err(ErrKind::Corruption)) && self.world.log.is_some() {
+                // keep the position monitor running on what the log actually does
+                self.c04_monitor(idx, &op, &outcome, model_before_nonempty_all_gone);
+                if let Ok(obs) = self.world.observe() {
+                    // a queue that was never deleted but is gone after a restart has lost its positions
+                    if matches!(op, Op::Restart { .. }) {
+                        let lost: Vec<(String, u64)> = self.model.queues.iter().filter(|(n, _)| !obs.queues.contains_key(*n)).filter_map(|(n, mq)| self.hw.get(&(n.clone(), mq.incarnation)).map(|h| (n.clone(), *h))).collect();
+                        if let Some((n, h)) = lost.first() {
+                            self.fail("C04", "queue-with-positions-vanished", format!("after {} a queue (name {} B) that had handed out positions up to {} and was never deleted no longer exists: its next append would start again from 0", op.short(), n.len(), h));
+                        }
+                    }
+                    self.model.rebase(&obs);
+                    self.stopped = false;
+                    self.cursor = None;
+                }
+            }
+            for f in &mut self.failures[failures_before..] {
+                f.op_index = idx;
+            }
             self.models.push(self.model.clone());
             // undo the step index bump for failure attribution
-            if let Some(f) = self.failures.last_mut() {
+            if let Some(f) = self.failures.get_mut(failures_before.saturating_sub(1)) {
                 f.op_index = idx;
             }
             return outcome;
